@@ -12,6 +12,7 @@ import (
 	"strings"
 
 	"free5gclib/aper"
+	"free5gclib/ngap/ngapType"
 )
 
 type M = map[string]interface{}
@@ -641,4 +642,20 @@ func hasNoAlternatives(t reflect.Type) bool {
 		}
 	}
 	return false
+}
+
+// TransferTypes: the transfer containers embedded in NGAP messages as OCTET STRINGs (decoded with aper.UnmarshalWithParams(b, &T{}, "valueExt"))
+var TransferTypes = []interface{}{
+	ngapType.HandoverCommandTransfer{}, ngapType.HandoverPreparationUnsuccessfulTransfer{},
+	ngapType.HandoverRequestAcknowledgeTransfer{}, ngapType.HandoverRequiredTransfer{},
+	ngapType.HandoverResourceAllocationUnsuccessfulTransfer{}, ngapType.PDUSessionResourceModifyConfirmTransfer{},
+	ngapType.PDUSessionResourceModifyIndicationTransfer{}, ngapType.PDUSessionResourceModifyIndicationUnsuccessfulTransfer{},
+	ngapType.PDUSessionResourceModifyRequestTransfer{}, ngapType.PDUSessionResourceModifyResponseTransfer{},
+	ngapType.PDUSessionResourceModifyUnsuccessfulTransfer{}, ngapType.PDUSessionResourceNotifyReleasedTransfer{},
+	ngapType.PDUSessionResourceNotifyTransfer{}, ngapType.PDUSessionResourceReleaseCommandTransfer{},
+	ngapType.PDUSessionResourceReleaseResponseTransfer{}, ngapType.PDUSessionResourceSetupRequestTransfer{},
+	ngapType.PDUSessionResourceSetupResponseTransfer{}, ngapType.PDUSessionResourceSetupUnsuccessfulTransfer{},
+	ngapType.PathSwitchRequestAcknowledgeTransfer{}, ngapType.PathSwitchRequestSetupFailedTransfer{},
+	ngapType.PathSwitchRequestTransfer{}, ngapType.PathSwitchRequestUnsuccessfulTransfer{},
+	ngapType.SourceNGRANNodeToTargetNGRANNodeTransparentContainer{}, ngapType.TargetNGRANNodeToSourceNGRANNodeTransparentContainer{},
 }
